@@ -34,6 +34,38 @@ def pattern(t):
     if t[0] == "binop" and t[1] == "Add":
         a, b = pattern(t[2]), pattern(t[3])
         return None if a is None or b is None else a + b
+    if t[0] == "mcall" and t[2] == "format" and t[1][0] == "const" and isinstance(t[1][1], str):
+        # '{0}{0}'.format(escapechar), '{}"'.format(escapechar)
+        import re
+        args = [pattern(a) for a in t[3] if a[0] != "kw"]
+        if any(a is None for a in args) or any(a[0] == "kw" for a in t[3]):
+            return None
+        auto = [0]
+
+        def repl(mo):
+            k = mo.group(1)
+            if k == "":
+                k = auto[0]
+                auto[0] += 1
+            k = int(k)
+            if k >= len(args):
+                raise ValueError
+            return args[k]
+        try:
+            return re.sub(r"\{(\d*)\}", repl, t[1][1])
+        except ValueError:
+            return None
+    return None
+
+
+def _quoted_wrap(v):
+    """X if v is '"' + X + '"' or '"{}"'.format(X), else None."""
+    if v[0] == "mcall" and v[2] == "format" and v[1] == ("const", '"{}"') and len(v[3]) == 1:
+        return v[3][0]
+    if v[0] == "binop" and v[1] == "Add" and v[3] == ("const", '"') and v[2][0] == "binop" and v[2][1] == "Add" and v[2][2] == ("const", '"'):
+        return v[2][3]
+    if v[0] == "fstr" and len(v) == 4 and v[1] == ("const", '"') and v[3] == ("const", '"'):
+        return v[2]
     return None
 
 
@@ -68,13 +100,16 @@ def rule_csv_tables(ctx: Ctx) -> RuleResult:
             if len(apps) != 1:
                 continue
             v = apps[0].args[0]
-            is_str = [e for e in p.trace if e.k == "decision" and e.test[0] == "cmp" and e.test[1] in ("Is", "Eq") and e.test[3] == ("builtin", "str")
-                      and e.test[2][0] == "call" and e.test[2][1] == ("builtin", "type")]
+            is_str = [e for e in p.trace if e.k == "decision" and (
+                (e.test[0] == "cmp" and e.test[1] in ("Is", "Eq") and e.test[3] == ("builtin", "str")
+                 and e.test[2][0] == "call" and e.test[2][1] == ("builtin", "type")) or
+                (e.test[0] == "call" and e.test[1] == ("builtin", "isinstance") and len(e.test[2]) == 2 and e.test[2][1] == ("builtin", "str")))]
             if is_str and is_str[0].outcome:
-                # '"{}"'.format(<replace chain>)
-                ok = v[0] == "mcall" and v[2] == "format" and v[1] == ("const", '"{}"') and len(v[3]) == 1
+                # the quoted, escaped field:  '"' + <replace chain> + '"'
+                inner_v = _quoted_wrap(v)
+                ok = inner_v is not None
                 if ok:
-                    base, chain = _replace_chain(v[3][0])
+                    base, chain = _replace_chain(inner_v)
                     writer = chain
                     ok = len(chain) == 2
                 r.ob(ok, lambda: mk_finding("CS-1", spec, None, cfg, p, "a string field must be escaped (escapechar, then quote) and wrapped in quotes; it is written as %s" % show(v), extra="escape"))
@@ -105,12 +140,13 @@ def rule_csv_tables(ctx: Ctx) -> RuleResult:
         r.paths += 1
         if not _normal(p):
             continue
+        LINE = ("arg", m.scopes[fn].params[0])
         for e in p.trace:
-            if e.k == "call" and e.d.get("method") == "split" and e.base == ("arg", "line"):
+            if e.k == "call" and e.d.get("method") == "split" and e.base == LINE:
                 split_ok = split_ok or (len(e.args) == 1 and e.args[0][0] == "param" and e.args[0][1] == "separator")
         # the unquoting branch: value handed to the column parser is a replace chain over i[1:-1]
         for e in p.trace:
-            if e.k == "call" and e.func[0] == "sub" and e.func[1] == ("arg", "columns_parser") and e.args:
+            if e.k == "call" and e.func[0] == "sub" and e.func[1] == ("arg", m.scopes[fn].params[1]) and e.args:
                 base, chain = _replace_chain(e.args[0])
                 if chain:
                     reader = chain
@@ -320,86 +356,213 @@ def _dict_literal(fn, name):
     return None
 
 
+def _replay_list(p, t):
+    """Final content of a list built as a literal and then extended with append/insert/extend on the path."""
+    if t is None:
+        return None
+    if t[0] == "star":
+        t = t[1]
+    if t[0] not in ("list", "tuple"):
+        return None
+    items = list(t[1:])
+    for e in p.trace:
+        if e.k == "mutate" and e.base == t:
+            if e.method == "append" and e.args:
+                items.append(e.args[0])
+            elif e.method == "insert" and len(e.args) == 2 and e.args[0][0] == "const":
+                items.insert(e.args[0][1], e.args[1])
+            elif e.method == "extend" and e.args and e.args[0][0] in ("list", "tuple"):
+                items += list(e.args[0][1:])
+            else:
+                return None
+    return items
+
+
+def _pipe_stages(p, v):
+    """Flatten  X.pipe(a, b).pipe(*lst)  into (source term, [stage terms]); None if v is not a pipe call."""
+    chain = []
+    while v is not None and v[0] == "mcall" and v[2] == "pipe":
+        args = []
+        for a in v[3]:
+            if a[0] == "star":
+                items = _replay_list(p, a)
+                if items is None:
+                    return None
+                args += items
+            elif a[0] == "kw":
+                return None
+            else:
+                args.append(a)
+        chain.append(args)
+        v = v[1]
+    if not chain:
+        return None
+    chain.reverse()
+    return v, [x for part in chain for x in part]
+
+
+def _stage_id(t):
+    """name of a stage term: 'module.function' for a repository function, '<table:NAME>' for table[compression]()"""
+    if t[0] == "call" and t[1][0] == "func":
+        fn, mod = t[1][1], t[1][2]
+        return "%s.%s" % (mod.name, fn.name)
+    if t[0] == "call" and t[1][0] == "sub" and t[1][2][0] in ("param", "arg") and t[1][2][1] == "compression":
+        if t[1][1][0] == "free":
+            return "<table:%s>" % t[1][1][1]
+        if t[1][1][0] == "dict":
+            return "<table:#local>"
+    return show(t)[:60]
+
+
+def _table_of(t, ast_tables):
+    """{compression name: 'module.function'} of the table indexed by a <table:...> stage."""
+    base = t[1][1]
+    if base[0] == "free":
+        return ast_tables.get(base[1])
+    if base[0] == "dict":
+        items = base[1:]
+        n = len(items) // 2
+        out = {}
+        for k, v in zip(items[:n], items[n:]):
+            if k[0] != "const" or v[0] != "func":
+                return None
+            out[k[1]] = "%s.%s" % (v[2].name, v[1].name)
+        return out
+    return None
+
+
+def _kwargs_of(t):
+    return {a[1]: a[2] for a in t[2] if a[0] == "kw"} if t[0] == "call" else {}
+
+
+def _cfg_of_path(p, names):
+    """{name: True/False/None} from the decisions a path took on the given own parameters."""
+    out = {}
+    for e in p.trace:
+        if e.k != "decision":
+            continue
+        t = e.test
+        for n in names:
+            ref = [x for x in subterms(t) if x[0] in ("arg", "param") and x[1] == n]
+            if not ref:
+                continue
+            val = e.outcome
+            if t[0] == "cmp" and t[1] in ("IsNot", "NotEq"):
+                val = not val if (("const", True) in (t[2], t[3])) else val
+                if ("const", None) in (t[2], t[3]):
+                    val = e.outcome
+            elif t[0] == "cmp" and t[1] in ("Is", "Eq") and ("const", None) in (t[2], t[3]):
+                val = not e.outcome
+            elif t[0] == "cmp" and t[1] in ("Is", "Eq") and ("const", False) in (t[2], t[3]):
+                val = not e.outcome
+            out.setdefault(n, val)
+    return out
+
+
 def rule_ag7(ctx: Ctx) -> RuleResult:
     r = RuleResult("AG-7", "JSON lines: load_from_file(lines=True) is the stage-by-stage inverse of dump_to_file for every compression setting")
     m = ctx.program.module(JSON)
     md, fd = ctx.function(JSON, "dump_to_file")
     ml, fl = ctx.function(JSON, "load_from_file")
     r.instances += 1
-    # compression tables
-    dd, dl = _dict_literal(fd, "compressions"), _dict_literal(fl, "compressions")
-    if dd is None or dl is None:
-        raise AnalysisError("json.py: the compressions tables vanished")
-    wt = {ast.literal_eval(k): _resolve_attr(ctx, m, v) for k, v in zip(dd.keys, dd.values)}
-    rt = {ast.literal_eval(k): _resolve_attr(ctx, m, v) for k, v in zip(dl.keys, dl.values)}
+    # ---- compression tables: the dict literals of the two functions ----------------
+    def tables(fn):
+        out = {}
+        for n in ast.walk(fn):
+            if isinstance(n, ast.Assign) and isinstance(n.value, ast.Dict) and len(n.targets) == 1 and isinstance(n.targets[0], ast.Name):
+                try:
+                    out[n.targets[0].id] = {ast.literal_eval(k): _resolve_attr(ctx, m, v) for k, v in zip(n.value.keys, n.value.values)}
+                except Exception:
+                    pass
+        return out
+    wtabs, rtabs = tables(fd), tables(fl)
+    # ---- writer -------------------------------------------------------------------------
+    inner = [n for n in fd.body if isinstance(n, ast.FunctionDef)]
+    if len(inner) != 1:
+        raise AnalysisError("json.dump_to_file: expected one inner operator function")
+    wfn = inner[0]
+    writer = {}
+    for comp in ("Obj", "None"):
+        for p in ctx.fn_paths(md, wfn, cfg={"compression": comp}, inline=False):
+            r.paths += 1
+            if p.outcome != "return":
+                continue
+            fl_ = _pipe_stages(p, p.value)
+            if fl_ is None:
+                raise AnalysisError("json.dump_to_file: the returned pipeline is not source.pipe(...)")
+            src, stages = fl_
+            writer[comp == "Obj"] = (src, stages, p)
+    if set(writer) != {True, False}:
+        raise AnalysisError("json.dump_to_file: could not extract the pipeline for both compression settings")
+    wtable = None
+    for comp, (src, stages, p) in sorted(writer.items()):
+        ids = [_stage_id(t) for t in stages]
+        want = ["rxsci.container.json.dump", "rxsci.data.codec.encode"] + (["<table>"] if comp else []) + ["rxsci.io.file.write"]
+        got = ["<table>" if i.startswith("<table:") else i for i in ids]
+        r.groups.add(("writer", comp))
+        r.ob(src == ("arg", md.scopes[wfn].params[0]) and got == want, lambda comp=comp, got=got, want=want: Finding(
+            "AG-7", "%s::dump_to_file{stages-%s}" % (JSON, "compressed" if comp else "plain"), md.where(fd),
+            "writer stages must be %s applied to the source; they are %s" % (want, got)))
+        for t in stages:
+            if _stage_id(t).startswith("<table:"):
+                wtable = _table_of(t, wtabs)
+        for t in stages:
+            if _stage_id(t) == "rxsci.io.file.write":
+                kw = _kwargs_of(t)
+                r.ob(kw.get("mode") == ("const", "wb"), lambda: Finding("AG-7", "%s{write-mode}" % JSON, md.where(fd), "the file must be written in mode 'wb'"))
+            if _stage_id(t) == "rxsci.data.codec.encode":
+                args = [a for a in t[2]]
+                r.ob(len(args) == 1 and args[0][0] in ("param", "arg") and args[0][1] == "encoding", lambda: Finding(
+                    "AG-7", "%s{encode-args}" % JSON, md.where(fd), "encode must receive the encoding parameter only (incremental by default)"))
+            if _stage_id(t) == "rxsci.container.json.dump":
+                kw = _kwargs_of(t)
+                pos = [a for a in t[2] if a[0] != "kw"]
+                nl = kw.get("newline", pos[0] if pos else None)
+                r.ob(nl is not None and nl[0] in ("param", "arg") and nl[1] == "newline", lambda: Finding(
+                    "AG-7", "%s{dump-newline}" % JSON, md.where(fd), "dump must receive the newline parameter"))
+    # ---- reader -------------------------------------------------------------------------
+    reader = {}
+    for p in ctx.fn_paths(ml, fl, inline=False):
+        r.paths += 1
+        if p.outcome != "return":
+            continue
+        cfgp = _cfg_of_path(p, ("compression", "lines"))
+        fl_ = _pipe_stages(p, p.value)
+        if fl_ is None:
+            raise AnalysisError("json.load_from_file: a returned pipeline is not <file.read(...)>.pipe(...)")
+        reader[(bool(cfgp.get("compression")), bool(cfgp.get("lines")))] = (fl_[0], fl_[1], p)
+    rtable = None
+    for comp in (False, True):
+        if (comp, True) not in reader:
+            raise AnalysisError("json.load_from_file: no path for lines=True, compression %s" % ("set" if comp else "unset"))
+        src, stages, p = reader[(comp, True)]
+        ids = [_stage_id(src)] + [_stage_id(t) for t in stages]
+        got = ["<table>" if i.startswith("<table:") else i for i in ids]
+        want = ["rxsci.io.file.read"] + (["<table>"] if comp else []) + ["rxsci.data.codec.decode", "rxsci.framing.line.unframe", "rxsci.container.json.load"]
+        r.groups.add(("reader", comp))
+        r.ob(got == want, lambda comp=comp, got=got, want=want: Finding(
+            "AG-7", "%s::load_from_file{stages-%s}" % (JSON, "compressed" if comp else "plain"), ml.where(fl),
+            "reader stages must be the reversed writer stages through the inverse table, i.e. %s; they are %s" % (want, got)))
+        for t in stages:
+            if _stage_id(t).startswith("<table:"):
+                rtable = _table_of(t, rtabs)
+        kw = _kwargs_of(src)
+        r.ob(kw.get("mode") == ("const", "rb"), lambda: Finding("AG-7", "%s{read-mode}" % JSON, ml.where(fl), "the file must be read in mode 'rb'"))
+        for t in stages:
+            if _stage_id(t) == "rxsci.data.codec.decode":
+                args = [a for a in t[2]]
+                r.ob(len(args) == 1 and args[0][0] in ("param", "arg") and args[0][1] == "encoding", lambda: Finding(
+                    "AG-7", "%s{decode-args}" % JSON, ml.where(fl), "decode must receive the encoding parameter only (incremental by default)"))
+    # ---- tables ----------------------------------------------------------------------------
+    wt, rt = wtable, rtable
+    if wt is None or rt is None:
+        raise AnalysisError("json.py: the compression tables used by the pipelines were not found")
     r.ob(set(wt) == set(rt), lambda: Finding("AG-7", "%s{compression-keys}" % JSON, md.where(fd), "compression names differ: dump %s, load %s" % (sorted(wt), sorted(rt))))
     for k in sorted(set(wt) & set(rt)):
         r.groups.add(("compression", k))
         r.ob(INVERSE.get(wt[k]) == (rt[k],), lambda k=k: Finding(
             "AG-7", "%s{compression-%s}" % (JSON, k), md.where(fd), "compression '%s' is written with %s but read with %s" % (k, wt[k], rt[k])))
-    # writer stage lists: the source.pipe(...) calls in _dump_to_file
-    inner = [n for n in ast.walk(fd) if isinstance(n, ast.FunctionDef) and n is not fd]
-    pipes = [n for n in ast.walk(fd) if isinstance(n, ast.Call) and isinstance(n.func, ast.Attribute) and n.func.attr == "pipe"]
-    if len(pipes) != 2:
-        raise AnalysisError("json.dump_to_file: expected two source.pipe(...) arms (with / without compression), found %d" % len(pipes))
-    writer = {}
-    for pc in pipes:
-        stages = []
-        comp = False
-        for a in pc.args:
-            if isinstance(a, ast.Call) and isinstance(a.func, ast.Call) and isinstance(a.func.func, ast.Subscript) and ast.unparse(a.func.func.value) == "compressions":
-                stages.append("<compress>")
-                comp = True
-            elif isinstance(a, ast.Call) and isinstance(a.func, ast.Subscript) and ast.unparse(a.func.value) == "compressions":
-                stages.append("<compress>")
-                comp = True
-            else:
-                stages.append(_stage_name(ctx, m, a) or ast.unparse(a))
-        writer[comp] = (stages, pc)
-    # guard: the compressed arm is taken iff compression is set
-    want_w = {False: ["rxsci.container.json.dump", "rxsci.data.codec.encode", "rxsci.io.file.write"],
-              True: ["rxsci.container.json.dump", "rxsci.data.codec.encode", "<compress>", "rxsci.io.file.write"]}
-    for comp in (False, True):
-        st = writer.get(comp, ([], None))[0]
-        r.groups.add(("writer", comp))
-        r.ob(st == want_w[comp], lambda comp=comp, st=st: Finding(
-            "AG-7", "%s::dump_to_file{stages-%s}" % (JSON, "compressed" if comp else "plain"), md.where(fd),
-            "writer stages must be %s; they are %s" % (want_w[comp], st)))
-    # reader: file.read(...).pipe(*pipe_ops).pipe(decode, unframe, load) in the lines=True arm
-    arm = None
-    for n in ast.walk(fl):
-        if isinstance(n, ast.If) and ast.unparse(n.test) in ("lines is True", "lines", "lines == True"):
-            arm = n.body
-    if arm is None:
-        raise AnalysisError("json.load_from_file: the lines=True arm was not found")
-    ret = [s for s in arm if isinstance(s, ast.Return)]
-    if len(ret) != 1:
-        raise AnalysisError("json.load_from_file: the lines=True arm does not return a pipeline")
-    chain = []
-    v = ret[0].value
-    while isinstance(v, ast.Call) and isinstance(v.func, ast.Attribute) and v.func.attr == "pipe":
-        chain.append(v.args)
-        v = v.func.value
-    chain.reverse()
-    rstages = [_stage_name(ctx, m, v) or ast.unparse(v)]
-    read_call = v
-    for args in chain:
-        for a in args:
-            if isinstance(a, ast.Starred) and ast.unparse(a.value) == "pipe_ops":
-                rstages.append("<decompress?>")
-            else:
-                rstages.append(_stage_name(ctx, m, a) or ast.unparse(a))
-    want_r = ["rxsci.io.file.read", "<decompress?>", "rxsci.data.codec.decode", "rxsci.framing.line.unframe", "rxsci.container.json.load"]
-    r.ob(rstages == want_r, lambda: Finding("AG-7", "%s::load_from_file{stages}" % JSON, ml.where(fl),
-                                            "reader stages must be the reversed writer stages through the inverse table, i.e. %s; they are %s" % (want_r, rstages)))
-    # pipe_ops holds exactly the decompressor, iff compression is set
-    po = [n for n in ast.walk(fl) if isinstance(n, ast.If) and ast.unparse(n.test) == "compression"]
-    ok = len(po) == 1 and len(po[0].body) == 1 and ast.unparse(po[0].body[0]) == "pipe_ops.append(compressions[compression]())" and not po[0].orelse
-    r.ob(ok, lambda: Finding("AG-7", "%s::load_from_file{pipe_ops}" % JSON, ml.where(fl), "pipe_ops must contain exactly the decompressor selected by 'compression'"))
-    # modes, encodings, newline
-    wkw = {k.arg: ast.unparse(k.value) for pc in [writer[False][1]] for a in pc.args if isinstance(a, ast.Call) and (_stage_name(ctx, m, a) or "").endswith("file.write") for k in a.keywords}
-    rkw = {k.arg: ast.unparse(k.value) for k in read_call.keywords} if isinstance(read_call, ast.Call) else {}
-    r.ob(wkw.get("mode") == "'wb'" and rkw.get("mode") == "'rb'", lambda: Finding("AG-7", "%s{modes}" % JSON, md.where(fd), "the file must be written 'wb' and read 'rb'; found %s / %s" % (wkw.get("mode"), rkw.get("mode"))))
+    # ---- defaults ---------------------------------------------------------------------------
     ddf, dlf = _defaults(md, fd), _defaults(ml, fl)
     r.ob(ddf.get("encoding") == dlf.get("encoding") and ddf.get("encoding") is not None, lambda: Finding(
         "AG-7", "%s{encoding-default}" % JSON, md.where(fd), "encoding defaults differ: dump %s, load %s" % (ddf.get("encoding"), dlf.get("encoding"))))
@@ -418,7 +581,7 @@ def rule_ag7(ctx: Ctx) -> RuleResult:
             if ok:
                 v = ems[0].eff.arg
                 ok = v[0] == "binop" and v[1] == "Add" and v[3][0] == "param" and v[3][1] == "newline" and any(
-                    x[0] == "call" and x[1] == ("glob", "json.dumps") or (x[0] == "call" and x[1][0] == "glob" and x[1][1].endswith(".dumps")) for x in subterms(v[2]))
+                    (x[0] == "call" and x[1][0] == "glob" and x[1][1].endswith(".dumps")) for x in subterms(v[2]))
             r.ob(ok, lambda: mk_finding("AG-7", spec, None, cfg, p, "dump must emit dumps(item) + newline once per item; it emits %s" % summary(p), extra="dump"))
     r.require_instances(1)
     return r
@@ -515,23 +678,33 @@ def rule_pu2(ctx: Ctx) -> RuleResult:
         raise AnalysisError("parquet.load_from_file._load_file vanished")
     ml, fl = cands[0]
     r.instances += 1
-    fors = [n for n in fl.body if isinstance(n, ast.For)]
-    ok = len(fors) == 1 and "iter_batches" in ast.unparse(fors[0].iter) and "batch_size=batch_size" in ast.unparse(fors[0].iter).replace(" ", "")
-    emit_ok = False
-    comp_after = False
-    if ok:
-        for n in ast.walk(fors[0]):
-            if isinstance(n, ast.For) and n is not fors[0]:
-                body = [ast.unparse(s) for s in n.body]
-                if body == ["observer.on_next(%s)" % ast.unparse(n.target)]:
-                    emit_ok = True
-        idx = fl.body.index(fors[0])
-        comp_after = any(ast.unparse(s) == "observer.on_completed()" for s in fl.body[idx + 1:]) and \
-            not any("on_completed" in ast.unparse(s) for s in fl.body[:idx + 1])
-        # rows are rebuilt column-wise: dict(zip(names, row)) for row in zip(*columns)
-        rows_ok = "dict(zip(schema_names, row)) for row in zip(*batch.to_pydict().values())" in ast.unparse(fors[0])
-        ok = emit_ok and comp_after and rows_ok
-    r.ob(ok, lambda: Finding("PU-2", "%s::load_from_file._load_file{rows}" % PQ, ml.where(fl),
-                             "the loader must iterate iter_batches(batch_size=batch_size), emit every row of every batch once and complete after the loop"))
+    saw_rows = False
+    for p in ctx.fn_paths(ml, fl, max_iter=1):
+        r.paths += 1
+        if not _normal(p):
+            continue
+        loops = [e for e in p.trace if e.k == "loopiter"]
+        ems = emissions(p)
+        outs = [x for x in ems if x.method == "on_next"]
+        comps = [x for x in ems if x.method == "on_completed"]
+        broke = any(e.k == "loopexit" and e.d.get("broke") for e in p.trace)
+        if len(loops) >= 2:
+            saw_rows = True
+            outer, inner_ = loops[0], loops[1]
+            it = outer.iter
+            ok = it is not None and it[0] == "mcall" and it[2] == "iter_batches" and any(
+                a[0] == "kw" and a[1] == "batch_size" and a[2][0] in ("param", "arg") and a[2][1] == "batch_size" for a in it[3])
+            r.ob(ok, lambda: Finding("PU-2", "%s::load_from_file._load_file{batches}" % PQ, ml.where(fl),
+                                     "the loader must iterate iter_batches(batch_size=batch_size); it iterates %s" % show(it), trace_of(p)))
+            dep = any(x == outer.var or (x[0] == "loopvar" and x[1] == outer.var[1]) for x in subterms(inner_.iter))
+            ok = len(outs) == 1 and outs[0].eff.arg[0] == "loopvar" and outs[0].eff.arg[1] == inner_.loop and dep
+            r.ob(ok, lambda: Finding("PU-2", "%s::load_from_file._load_file{rows}" % PQ, ml.where(fl),
+                                     "every row of every batch must be emitted exactly once: the inner loop must run over the rows of the current batch and emit "
+                                     "its loop variable; emissions on this path: %s" % summary(p), trace_of(p)))
+        if not broke:
+            ok = len(comps) == 1 and ems[-1] is comps[0]
+            r.ob(ok, lambda: Finding("PU-2", "%s::load_from_file._load_file{completion}" % PQ, ml.where(fl),
+                                     "on_completed must follow the last row, exactly once; this path: %s" % summary(p), trace_of(p)))
+    r.ob(saw_rows, lambda: Finding("PU-2", "%s::load_from_file._load_file{loops}" % PQ, ml.where(fl), "no batch / row loops found in the loader"))
     r.require_instances(3)
     return r
